@@ -491,16 +491,22 @@ Proof.
   unfold bw_pop. rewrite (wr_max _ _ _ W), Hlastx.
   replace (x =? 0) with false by (symmetry; apply N.eqb_neq; lia).
   rewrite N.eqb_refl. cbn [negb].
-  rewrite (wr_ent _ _ _ W). unfold lenN at 1 2. rewrite Hlen, app_length in *. cbn [length] in *.
+  assert (Hrl : length (bw_restarts b) = (length full + 1)%nat).
+  { rewrite (wr_rs _ _ _ W), offs_length. unfold wsecs. rewrite (match_ne (c' ++ [x])) by apply snoc_ne.
+    rewrite app_length. reflexivity. }
+  replace (Nat.eqb (length (bw_restarts b)) 0) with false by (symmetry; apply Nat.eqb_neq; lia). cbn [orb].
+  rewrite (wr_ent _ _ _ W). unfold lenN at 1 2 3. rewrite Hlen, app_length in *. cbn [length] in *.
   destruct (N.eqb_spec (N.of_nat (256 * length full + (length c' + 1))) 1) as [E1|E1].
   { (* the only element *)
     assert (length full = 0%nat /\ length c' = 0%nat) as [Hf Hc] by lia.
     destruct full; [|discriminate]. destruct c'; [|discriminate].
     exists (mkBW (mkDesc 0 0 (d_id (bw_desc b))) [] []), [], []. split; [reflexivity|]. split; [apply wrepr_new|reflexivity]. }
-  destruct (N.eqb_spec (N.of_nat (256 * length full + (length c' + 1)) mod 256) 1) as [E2|E2].
+  destruct (N.eqb_spec (N.of_nat (256 * length full + (length c' + 1)) mod 256) 1) as [E2|E2]; cbn [andb].
   { (* the current section holds one element: drop the section *)
     assert (Hc0 : length c' = 0%nat) by lia. destruct c'; [|discriminate]. clear Hc0.
     assert (Hfne : full <> []) by (intros ->; cbn in E1; lia).
+    replace (Nat.ltb (length (bw_restarts b)) 2) with false
+      by (symmetry; apply Nat.ltb_ge; rewrite Hrl; destruct full; [contradiction|cbn [length]; lia]).
     destruct (snoc_cases full) as [->|[full' [s ->]]]; [contradiction|].
     apply Forall_app_inv in Hfull. destruct Hfull as [Hfull' Hs]. inversion Hs as [|? ? Hs256 _]; subst.
     assert (Hsne : s <> []) by (intros ->; discriminate).
